@@ -166,6 +166,19 @@ def run(ctx):
                                "r": fp(pr), "rn": fpn(pr)})
             if len(rs) != len(tc[t]):
                 ctx.violation("a compiling thread died", {"threads": tc, "observed": x})
+    # ---- per-process hash state: sheets whose result went through address- or hash-keyed containers, each in many fresh processes
+    # (std's hasher is keyed per process: a result that depends on it differs in about one process in a hundred)
+    HASHY = ["b:not(.x) { r: 1; }\nb:not(.x) { r: 2; }\nb { @extend .x; r: 3; }\n",
+             ".x { r: 1; }\n.x { r: 2; }\n.x { r: 3; }\n.y { @extend .x; r: 4; }\n",
+             "a { b: c; }\na { d: e; }\n%p { f: g; }\na { @extend %p; }\n@media screen { a { h: i; } a { j: k; } }\n"]
+    reps_h = 260 if ctx.tier == "quick" else 1500
+    for src_h in HASHY:
+        pool.append({"src": src_h})
+        jh = len(pool)
+        hres = C.run_fresh_processes([{"id": k, "src": src_h} for k in range(reps_h)], PID + "-hash")
+        for k, x in enumerate(hres):
+            events.append({"e": "baseline", "id": "fresh-hash-%d-%d" % (jh, k), "j": jh, "r": fp(x), "rn": fpn(x), "t": 0})
+        ctx.count(["hash", src_h])
     # ---- unique-id(): distinct valid identifiers within one compilation (loops, functions, mixins, an imported file, both spellings)
     UID = [("@for $i from 1 through 400 { a { u: unique-id(); } }\n", {}),
            ("@use \"sass:string\";\n@function f() { @return string.unique-id(); }\n@mixin m { u: unique-id(); u: f(); }\n"
